@@ -555,3 +555,68 @@ func c12NumberExponent(p *Prog) *RuleResult {
 	r.Floor(1)
 	return r
 }
+
+// ---------------------------------------------------------------------------------------------
+// C12/R11 calc-reciprocal-only-for-plain-numbers.
+//
+// As a size optimisation the calc() simplifier turns `* 0.5` into `/ 2` when the reciprocal prints
+// shorter. That identity holds for plain numbers only: `x * .5px` is a length, `x / 2px` divides by a
+// length (a different type, and invalid where a length is expected). Rule: every construction of a
+// calcInvert node from a numeric term is control dependent on a test of that term's unit.
+func c12CalcReciprocalUnitless(p *Prog) *RuleResult {
+	r := NewRule("C12/R11 calc-reciprocal-only-for-plain-numbers", "the calc() simplifier rewrites a multiplication into a division by the reciprocal only for numbers without a unit")
+	n := 0
+	for _, fn := range p.ModuleFuncs() {
+		if pkgPathOf(fn) != modPath+"/internal/css_parser" {
+			continue
+		}
+		eachInstr(fn, func(b *ssa.BasicBlock, in ssa.Instruction) {
+			al, ok := in.(*ssa.Alloc)
+			if !ok || !al.Heap || namedTypeName(al.Type()) != "css_parser.calcInvert" {
+				return
+			}
+			// only constructions that follow a reciprocal computation (1 / number) in the same function
+			hasRecip := false
+			eachInstr(fn, func(b2 *ssa.BasicBlock, in2 ssa.Instruction) {
+				if bo, ok := in2.(*ssa.BinOp); ok && bo.Op == token.QUO {
+					if c, ok := bo.X.(*ssa.Const); ok && c.Value != nil && c.Value.String() == "1" {
+						hasRecip = true
+					}
+				}
+			})
+			if !hasRecip {
+				return
+			}
+			n++
+			r.Instances++
+			key := fmt.Sprintf("%s builds an inverted numeric term #%d", FuncName(fn), n)
+			// the numeric term that is wrapped: a *calcNumeric value stored (as an interface) inside the new node
+			numerics := map[ssa.Value]bool{}
+			deepSlice(al, func(v ssa.Value) bool {
+				if mi, ok := v.(*ssa.MakeInterface); ok && namedTypeName(mi.X.Type()) == "css_parser.calcNumeric" {
+					numerics[mi.X] = true
+				}
+				return true
+			})
+			tested := false
+			for _, ifi := range controlDepIfsTransitive(b) {
+				sliceCond(ifi.Cond, func(v ssa.Value) bool {
+					if fa, ok := v.(*ssa.FieldAddr); ok && fieldAddrName(fa) == "unit" && numerics[fa.X] {
+						tested = true
+					}
+					return true
+				})
+			}
+			if tested {
+				r.OK(key, true, "conditional on the numeric term's unit")
+			} else {
+				r.Fail(key, p.Pos(al.Pos()), "a numeric factor is replaced by a division by its reciprocal without looking at its unit: `calc(env(x) * .5px)` becomes `calc(env(x) / 2px)`, which divides by a length instead of scaling one")
+			}
+		})
+	}
+	if !r.Anchor("reciprocal rewrites in the calc() simplifier", n >= 1) {
+		return r
+	}
+	r.Floor(1)
+	return r
+}
